@@ -284,4 +284,6 @@ CXX_PROBES = [
     ('P11', [('ext', 'FO', 0), ('optional', 'F12', 0), ('ext', 'D8', 0)]),
     ('P12', [('dynamic', 'u8', 0), ('optional', 'u16', 0), ('dynamic', 'u64', 0), ('optional', 'u64', 0)]),
     ('P13', [('bdynamic', 'byte', 0), ('limited', 'u8', 2), ('plain', 'D8', 0), ('fixed', 'u16', 3)]),
+    # a part (4-aligned) followed by a less aligned part (2): the shape of the recorded C09 finding
+    ('P14', [('blimited', 'byte', 5), ('ext', 'F16', 0), ('dynamic', 'i8', 0), ('plain', 'TU16', 0)]),
 ]
